@@ -99,6 +99,7 @@ struct StubNN : ompl::NearestNeighbors<Motion *>
 };
 // ---- library functions replaced by environment stubs (their own code is checked elsewhere or outside the claim)
 const std::string &ompl::base::Planner::getName() const { return name_; }
+ob::State *ompl::base::StateSpace::cloneState(const ob::State *source) const { ob::State *c = allocState(); copyState(c, source); return c; }
 const ob::State *ompl::base::PlannerInputStates::nextStart() { return g_starts_handed < NSTART ? &g_startst[g_starts_handed++] : nullptr; }
 bool ompl::base::PlannerTerminationCondition::eval() const { return g_ptc_evals++ >= g_ptc_fire; }       // false for the first g_ptc_fire evaluations, then true forever
 void ompl::base::ProblemDefinition::addSolutionPath(const ob::PathPtr &path, bool approximate, double difference, const std::string &) const
